@@ -15,12 +15,13 @@ from symx.vloop import CycleBudget, Deadlock, VLoop
 
 
 def scn(sym, cov, kind, n, modes, cancel=None, native=False, fast=False, eager=False, T=2, J=2, cap=1,
-        retotal=False, retotal2=False, fixed_s=False, intruder=False, reacquire=False, rounds=1, capsym=False):
+        retotal=False, retotal2=False, fixed_s=False, intruder=False, reacquire=False, rounds=1, capsym=False, adapter=False):
     """kind: 'lock' | 'sem' | 'lim';  modes[i]: 'a' blocking acquire, 'n' nowait, 'b' (limiter) acquire_on_behalf_of(an object)
     cancel: index of the task to cancel or None;  cap: permits (sem initial value / limiter total)
     retotal: limiter only -- assign total_tokens = nv at a symbolic instant
     intruder: an extra task calls release() without holding at a symbolic instant
-    reacquire: task 0 tries to acquire again while holding"""
+    reacquire: task 0 tries to acquire again while holding
+    adapter: the primitive is instantiated OUTSIDE the event loop (LockAdapter / SemaphoreAdapter / CapacityLimiterAdapter)"""
     import anyio
     from anyio import CancelScope, WouldBlock
 
@@ -56,13 +57,19 @@ def scn(sym, cov, kind, n, modes, cancel=None, native=False, fast=False, eager=F
     def capacity():
         return state["total"]
 
-    async def main():
+    def mk_prim():
         if kind == "lock":
-            prim = anyio.Lock(fast_acquire=fast)
-        elif kind == "sem":
-            prim = anyio.Semaphore(cap, fast_acquire=fast)
-        else:
-            prim = anyio.CapacityLimiter(cap)
+            return anyio.Lock(fast_acquire=fast)
+        if kind == "sem":
+            return anyio.Semaphore(cap, fast_acquire=fast)
+        return anyio.CapacityLimiter(cap)
+
+    prim0 = mk_prim() if adapter else None
+    if adapter:
+        chk(type(prim0).__name__.endswith("Adapter"), "harness-error:expected-an-adapter", type(prim0).__name__)
+
+    async def main():
+        prim = prim0 if adapter else mk_prim()
 
         def owner_ok(i):
             if kind == "lock":
